@@ -240,6 +240,14 @@ impl Ctx {
                                  "crltime": "ok", "revoked": "big_ee", "crlsig": "peer", "crlaki": "peer", "key": "peer"}, "size": "plain"});
             add("sigmsg", "assembled-revoked", crate::cmsmsg::assemble(&pki, &c).0);
         }
+        // hand-assembled generic signed objects whose signed attributes are as large as the library captures, and just beyond
+        {
+            let mut sc = crate::sigobj::Ctx::new();
+            for size in ["s65535", "s65536", "s65537"] {
+                let c = json!({"kind": "gen", "size": size, "fam": "v4", "f": {"attrs": "ok", "digest": "ok", "sig": "ok", "sid": "ok", "ee": "ok", "ctattr": "ok", "cover": "ok", "crl": "ok"}});
+                add("manifest", &format!("assembled-gen-{size}"), crate::sigobj::assemble(&mut sc, &c).0);
+            }
+        }
         // TAL (text): two URIs and the key of the TA
         {
             use bcder::encode::Values;
